@@ -146,7 +146,31 @@ func polyCase(r *rand.Rand) *core.Poly {
 	}
 	tiny := []float64{0, 0.5, -0.5, 0.99, -0.99, 1.01, -1.01, 2, -2, 10, -10}
 	p := &core.Poly{}
-	switch k := r.Intn(12); {
+	switch k := r.Intn(14); {
+	case k == 12:
+		// small roots: the constant term a*r1*r2*r3 is far below the solver's epsilon although it is not zero
+		p.Kind = "three-small-real"
+		small := func() float64 {
+			v := float64(1+r.Intn(99)) * math.Pow(10, float64(-2-r.Intn(3)))
+			if r.Intn(2) == 0 {
+				v = -v
+			}
+			return v
+		}
+		p.Roots = []float64{small(), small(), root()}
+		if r.Intn(2) == 0 {
+			p.Roots[2] = small()
+		}
+		p.Coeff = expandRoots(lead(), p.Roots)
+	case k == 13:
+		// the whole polynomial scaled down: leading coefficient just above the solver's epsilon, ordinary roots
+		p.Kind = "scaled-down"
+		p.Roots = []float64{float64(r.Intn(1501)) / 1000, float64(r.Intn(1501)) / 1000, float64(r.Intn(1501)) / 1000}
+		l := (1.01 + r.Float64()*50) * solverEps
+		if r.Intn(2) == 0 {
+			l = -l
+		}
+		p.Coeff = expandRoots(l, p.Roots)
 	case k <= 2:
 		p.Kind = "three-real"
 		p.Roots = []float64{root(), root(), root()}
@@ -455,12 +479,12 @@ func init() {
 		Rule: "even cases: generated well-formed corridors (as C19), path = real geom.Shortest, real geom.FitSpline with the merged polygon's sides as barriers, exactly as phase 5 does; oracle: pieces start at " +
 			"path[0], end at path[last], join exactly, and an independent De Casteljau evaluation at 513 parameters per piece plus the extrema of x(t), y(t) stays within 0.05 of the union of rectangles; " +
 			"odd cases: polynomials built from chosen roots with coefficients expanded in 256-bit arithmetic and rounded once (three real roots, real + complex pair, double and triple roots, quadratics and " +
-			"linears, leading coefficients in {0, +-0.5, +-0.99, +-1.01, +-2, +-10} x 1e-7 around the solver's epsilon); oracle: every robustly real root (odd multiplicity) has a returned value within " +
+			"linears, leading coefficients in {0, +-0.5, +-0.99, +-1.01, +-2, +-10} x 1e-7 around the solver's epsilon, small roots (constant term far below epsilon), whole polynomials scaled down to a leading coefficient of 1..50 x 1e-7); oracle: every robustly real root (odd multiplicity) has a returned value within " +
 			"max(1e-6, 1e3*eps*condition)*max(1,|root|), every returned value is within tolerance of a real root or has a backward error below 1e3*eps; " +
 			"non-trivial = fit needed >= 2 pieces, or polynomial with a repeated root / tiny leading coefficient",
 		MinNontrivial:    counts(4000, 60000),
 		DeathIsViolation: true,
-		Required:         []string{"captured_fits", "fits", "multi_piece_fits", "poly:three-real", "poly:double-root", "poly:triple-root", "poly:tiny-cubic-coefficient", "poly:one-real+complex-pair"},
+		Required:         []string{"fits", "multi_piece_fits", "poly:three-small-real", "poly:scaled-down", "poly:three-real", "poly:double-root", "poly:triple-root", "poly:tiny-cubic-coefficient", "poly:one-real+complex-pair"},
 		Assumptions: []string{
 			"well-formed corridors as in C19; only paths with >= 3 points are fitted (phase 5 does not call the fitter otherwise)",
 			"double roots (tangency without sign change) are not demanded from the root finder, but what is returned near them must be a root",
